@@ -68,3 +68,14 @@ Theorem C05_debug_body : forall cc g a,
          end).
 Proof. exact debug_body_with_attr. Qed.
 Print Assumptions C05_debug_body.
+
+(** link to std (through C03): a delegating attribute's literal is accepted by format_args! as exactly one
+    flag-free placeholder of the same trait; literals std rejects are therefore never silently accepted *)
+From Verif Require C03.StdParse.
+Theorem C05_delegation_agrees_with_std : forall cc, CC_ok cc -> forall a e tr,
+  transparent_call cc a = Some (e, tr) ->
+  exists sa, StdParse.std_parse cc (lit a) = Some [sa] /\
+             spec_has_modifiers (StdParse.sa_spec sa) = false /\
+             trait_name (sp_ty (StdParse.sa_spec sa)) = tr.
+Proof. exact delegation_agrees_with_std. Qed.
+Print Assumptions C05_delegation_agrees_with_std.
